@@ -16,6 +16,7 @@ package chainhistory
 // returned an error or panicked (E2.DeliverBlock recovers and reports the stack).  No expectations here.
 
 import (
+	"context"
 	"encoding/binary"
 	"encoding/json"
 	"fmt"
@@ -24,7 +25,9 @@ import (
 	"testing"
 	"time"
 
+	upgradetypes "cosmossdk.io/x/upgrade/types"
 	sdk "github.com/cosmos/cosmos-sdk/types"
+	"github.com/cosmos/cosmos-sdk/types/module"
 	"verifharness/drv"
 )
 
@@ -36,10 +39,10 @@ type c09Args struct {
 	Class  string `json:"class"`
 }
 
-// hostile heights per class, relative to the world base (240): see specs/ChainHistory.tla HeightOf
-var hostileHeight = map[string]int64{"m50": 250, "other": 253, "m10": 260, "m300": 300, "m303": 303}
+// hostile heights per class (world base 280): see specs/ChainHistory.tla HeightOf
+var hostileHeight = map[string]int64{"m10": 290, "other": 293, "m300": 300, "m303": 303, "m50": 350}
 
-const worldBase = 240
+const worldBase = 280
 
 // stage scripts: the blocks right before the hostile block
 var stageScript = map[string][][]string{
@@ -60,6 +63,28 @@ func duty(h int64) []string {
 		d = append(d, "deposit", "batchclaim")
 	}
 	return d
+}
+
+// quiet: nothing waits in any consensus queue and no batch is open (then the pigeons have nothing to do)
+func (c *chain) quiet() bool {
+	for _, ch := range chains {
+		for _, q := range []string{turnstoneQueue(ch), balancesQueue(ch), refblockQueue(ch)} {
+			if len(c.queueMsgs(q)) > 0 {
+				return false
+			}
+		}
+	}
+	bs, _ := c.e.App.SkywayKeeper.GetOutgoingTxBatches(c.ctx())
+	return len(bs) == 0
+}
+
+// dutyTxs: the transactions of the duty block after the current height
+func (c *chain) dutyTxs() [][]byte {
+	names := duty(c.e.Height)
+	if c.quiet() {
+		names = names[8:] // only what users send
+	}
+	return c.build(names)
 }
 
 func (c *chain) build(names []string) [][]byte {
@@ -239,6 +264,11 @@ func runNoAbort(t *testing.T, em *drv.Emitter, w *world, h drv.History, long boo
 				break
 			}
 			// governance completed the upgrade to a version newer than the running binary (x/upgrade done marker)
+			// the binary knows the upgrade (a handler is registered), so x/upgrade lets the block begin and x/paloma's
+			// CheckChainVersion compares the versions
+			c.e.App.UpgradeKeeper.SetUpgradeHandler("v9.9.9", func(ctx context.Context, _ upgradetypes.Plan, vm module.VersionMap) (module.VersionMap, error) {
+				return vm, nil
+			})
 			must(c.e.Setup(func(ctx sdk.Context) error {
 				name := "v9.9.9"
 				key := make([]byte, 9+len(name))
@@ -279,9 +309,9 @@ func runNoAbort(t *testing.T, em *drv.Emitter, w *world, h drv.History, long boo
 				if !gate {
 					mark(hostileAt)
 				}
-				need300 := long || hostileAt <= 303
+				need300, need303 := long || hostileAt <= 300, long || hostileAt <= 303
 				done := func() bool {
-					return cov["m10"] && cov["m50"] && (!need300 || (cov["m300"] && cov["m303"]))
+					return cov["m10"] && cov["m50"] && (!need300 || cov["m300"]) && (!need303 || cov["m303"])
 				}
 				if rejected {
 					// nothing of the transaction reached the state: two more blocks only
@@ -290,7 +320,7 @@ func runNoAbort(t *testing.T, em *drv.Emitter, w *world, h drv.History, long boo
 				}
 				n := 0
 				for !done() && n < 700 {
-					_, stack := deliver(c.build(duty(c.e.Height)))
+					_, stack := deliver(c.dutyTxs())
 					n++
 					if stack != "" {
 						ev["res"], ev["stack"], ev["log"] = "abort", shortStack(stack), firstLines(stack, 6000)
